@@ -274,6 +274,8 @@ func randLatin1(rng *rand.Rand, n int, space bool) string {
 
 // MainMsg is the "msg" subcommand.
 func MainMsg(args []string) int {
+	// the process does not run in UTC: dates are instants, whatever the local zone is
+	time.Local = time.FixedZone("TEST+0530", 5*3600+1800)
 	fs := flag.NewFlagSet("msg", flag.ExitOnError)
 	plans := fs.String("plans", "", "plan ndjson from TLC")
 	out := fs.String("out", "", "trace ndjson")
@@ -289,7 +291,8 @@ func MainMsg(args []string) int {
 	toSets := [][]string{{}, {"LA1B"}, {"la1b@winlink.org"}, {"foo@example.com"}, {"LA1B", "SMTP:Bar@Example.org"}, {"n0call-7", "LA1B@WINLINK.ORG"},
 		{"sysop@mail.winlink.org", "Bob.Smith@darwinlink.org"}, {"ops@NOTWINLINK.ORG", "x@winlink.org.example.com"}}
 	ccSets := [][]string{{}, {"LD5SK"}, {"someone@example.com", "la9x"}}
-	subjects := []string{"plain ascii subject", "//WL2K P/ Blåbærsyltetøy på brødskiva", "", "=?not an encoded word", "inner  double space", "tab\there", strings.TrimSpace(strings.Repeat("long ", 20))}
+	subjects := []string{"plain ascii subject", "//WL2K P/ Blåbærsyltetøy på brødskiva", "", "=?not an encoded word", "inner  double space", "tab\there", strings.TrimSpace(strings.Repeat("long ", 20)),
+		"esc\x1b[0m and del\x7f", "nul\x00inside", "line\nInjected: header", "cr\ronly", "crlf\r\nX-Injected: 1"}
 	names := []string{"a.txt", "blåbær syltetøy.jpg", "name with  two spaces.bin", "üñí.ç", "x"}
 	schedSets := [][][]int{{{1 << 20}, {1}, {2, 3}, {7}, {4096}}, {{1 << 20}, {1}}}
 	n := 0
